@@ -168,6 +168,18 @@ theorem annot_zero_vertices_orig_counterexample :
     (writeAnnot [] [⟨10, 20, 30, 0, 0⟩] false [[97]] true).bind (readAnnot false)
       = .ok ⟨[], [⟨10, 20, 30, 0, 1971210⟩], [[97]]⟩ := by decide
 
+/-- the ORIGINAL `_pack_rgb` on a uint8 colour table: white packs to 255 (not 16777215) and (10,200,30) to
+    10, so the annotation value written for label 1 is 255, which `read_annot` — whose table holds the true
+    packed values — maps back to row 0; the repaired packing (unbounded, as in the model) round-trips. -/
+theorem annot_narrow_ctab_orig_counterexample :
+    packRgbOrig 256 255 255 255 = 255 ∧ packRgbOrig 256 10 200 30 = 10 ∧
+    backMap (packs [⟨10, 200, 30, 0, 0⟩, ⟨255, 255, 255, 7, 0⟩]) 255 = .ok 0 ∧
+    (writeAnnot [1] [⟨10, 200, 30, 0, 0⟩, ⟨255, 255, 255, 7, 0⟩] false [[97], [98]] true).bind (readAnnot false)
+      = .ok ⟨[1], [⟨10, 200, 30, 0, 2017290⟩, ⟨255, 255, 255, 7, 16777215⟩], [[97], [98]]⟩ := by
+  refine ⟨by decide, by decide, ?_, ?_⟩
+  · simp [backMap, packs, packRgb, sortedPairs, searchsortedLeft, List.zipIdx, List.mergeSort, List.MergeSort.Internal.splitInTwo]
+  · exact annot_roundtrip _ _ _ _ _ ⟨by decide, by decide, by decide, by decide, by decide, by decide, by decide, by decide⟩ (by decide)
+
 /-- open finding `annot:empty-ctab-unlabeled-vertices`: with a zero-entry colour table every non-empty
     label vector makes `write_annot` raise IndexError (`ctab[:, -1][labels]`) -/
 theorem annot_empty_ctab_unlabeled_witness (labels : List Int) (has5 : Bool) (names : List Bytes)
